@@ -57,6 +57,10 @@ const VALUES: &[(&str, bool)] = &[
     ("={{ a: x }}", true),
     // a computed key is part of the value
     ("={{ [x]: 1 }}", true),
+    // a JSX element / fragment is a fresh vnode on every render, braced or not
+    ("=<i />", true),
+    ("=<>{x}</>", true),
+    ("={<i />}", true),
 ];
 
 fn alphabet() -> Vec<AAttr> {
